@@ -80,6 +80,23 @@ Theorem C04_gen_form_names_one_to_one : forall a b, enum_pass gen_dec_form a = e
 Proof. exact gen_form_names_one_to_one. Qed.
 Print Assumptions C04_gen_form_names_one_to_one.
 
+(* the tuples of form names written inline in the code (extracted from the source of iter_DIE_children in
+   compileunit.py and typeunit.py, DIE.get_DIE_from_attribute and DIE._translate_attr_value): the three copies of
+   the unit-relative reference tuple agree, the section-relative form is DW_FORM_ref_addr, the index-form
+   tuples are the standard's strx* / addrx* forms.  The model's tests are these generated lists. *)
+Theorem C04_gen_form_name_sets :
+  gen_die_ref_unit_forms = std_unit_ref_names /\ gen_cu_sibling_unit_forms = std_unit_ref_names /\
+  gen_tu_sibling_unit_forms = std_unit_ref_names /\
+  gen_cu_sibling_addr_form = "DW_FORM_ref_addr" /\ gen_tu_sibling_addr_form = "DW_FORM_ref_addr" /\
+  gen_die_ref_addr_pattern = "DW_FORM_ref_addr" /\ gen_die_ref_sig8_pattern = "DW_FORM_ref_sig8" /\
+  gen_die_ref_sup_forms = ["DW_FORM_ref_sup4"; "DW_FORM_ref_sup8"; "DW_FORM_GNU_ref_alt"] /\
+  gen_translate_addrx_forms = std_addrx_names /\ gen_translate_strx_forms = std_strx_names /\
+  gen_translate_chain = [["DW_FORM_strp"]; ["DW_FORM_line_strp"]; ["DW_FORM_GNU_strp_alt"; "DW_FORM_strp_sup"];
+                         ["DW_FORM_flag"]; ["DW_FORM_flag_present"]; std_addrx_names; std_strx_names;
+                         ["DW_FORM_loclistx"]; ["DW_FORM_rnglistx"]].
+Proof. exact gen_form_name_sets. Qed.
+Print Assumptions C04_gen_form_name_sets.
+
 (* ------------------------------------------------------------------ (2) unit headers and abbreviation tables *)
 (* DESIGN 4.4 T2.  DWARFInfo._parse_CU_at_offset over the header of the standard (v2-v4 compilation unit,
    the six DWARF 5 unit kinds; DWARF32/64, both byte orders, address size 4/8), at any offset of the
